@@ -1012,13 +1012,13 @@ func diffComplete(c *Ctx, rule string) {
 					if len(rec) != 1 || !p.factIs(len(p.Events), "("+p.Events[rec[0]].Call.String()+" == nil)", true) {
 						o.Fail(c.W.Pos(fn.Pos()), "power update told to consensus without recording SetLastValidatorPower(addr, power) for the same validator", c.Dump(p, -1))
 					}
-				case strings.HasSuffix(v.Args0Name(), "Keeper).mustGetValidator"):
+				case strings.HasSuffix(v.Args0Name(), "mustGetValidator"): // method or package function: the address is its last argument
 					rel, n := p.Relation(len(p.Events), keyIs(v.Key()+".ConsPower"), keyIs("0"))
 					if n == 0 || rel&rGT != 0 {
 						o.Fail(c.W.Pos(fn.Pos()), "removal update emitted for a validator whose power may be positive", c.Dump(p, -1))
 					}
 					// the looked-up address comes from the sorted no-longer-bonded slice
-					src := strip(v.Args[2])
+					src := strip(v.Args[len(v.Args)-1])
 					if !(src.Op == "convert" || src.Op == "index") || !fromSortedLast(c, src, lastM) {
 						o.Fail(c.W.Pos(fn.Pos()), "removed validator is looked up from "+trunc(src.Key(), 140)+", not from the sorted no-longer-bonded slice", c.Dump(p, -1))
 					}
